@@ -176,10 +176,14 @@ def gen_l1_contract(rng, idx):
             if "p" not in rt:
                 rt = P("MyResp")
             if r < 0.2:
-                m["msg"]["resp"] = "ExplicitResp"
+                # an explicit response type: a concrete name, or one of the contract's own type parameters (it then counts as used)
+                m["msg"]["resp"] = rng.choice(gens) if gens and rng.random() < 0.5 else "ExplicitResp"
                 m["ret"] = P("QueryResult", P("ContractError"))
             elif r < 0.6:
                 m["ret"] = gen.std_result(rt)
+            elif gens and r < 0.75:
+                # a parameter that occurs only in the *error* half of the result does not count as used
+                m["ret"] = {"p": [["Result", [rt, P("MyErr", P(rng.choice(gens)))]]]}
             else:
                 m["ret"] = {"p": [["Result", [rt, P("ContractError")]]]}
         if k != "instantiate" and rng.random() < 0.3:
